@@ -1,0 +1,11 @@
+//go:build !verif
+// +build !verif
+
+package jmespath
+
+// Verification hooks are compiled in only with the "verif" build tag
+// (see verif_hooks.go); without it these are empty and inlined away.
+
+func verifEnter(node ASTNode, value interface{}) {}
+
+func (p *Parser) verifStep(kind string, t tokType) {}
